@@ -166,10 +166,21 @@ def run(ctx):
                   msg=f"read_bytes({total}) with the stream delivering {chunk} byte(s) per read: requests {[(r[0]) for r in requests][:6]}, returns "
                   f"{len(got.v) if isinstance(got, Const) else got} bytes and leaves {len(rest.v) if isinstance(rest, Const) else rest} of 4 following bytes: bytes of the next frame are consumed",
                   key=f"read_bytes {total}/{chunk}", node=program.func(uid), rel="jupyter_kernel.py", sample={"requests": requests[:5]})
-    f = program.func(uid)
-    ok = any(isinstance(n, ast.If) and "len(new_data) == 0" in norm(n.test).replace("not new_data", "len(new_data) == 0") and any(isinstance(m, ast.Raise) and "EOFError" in norm(m) for m in n.body)
-             for n in body_walk(f))
-    ctx.check(ok, "R19.2", uid, "EOF raises EOFError", msg="read_bytes no longer raises EOFError when the stream ends", key="read_bytes EOF", node=f, rel="jupyter_kernel.py")
+    # the stream ends after `have` of the requested bytes: EOFError, never a short result and never a busy loop
+    for total, have in ((5, 0), (5, 3), (8, 7)):
+        def eof_read(interp, node, args, kwargs, cfg, out):
+            src = cfg.heap.get("$src")
+            n = args[0].v if args and isinstance(args[0], Const) else len(src.v)
+            take = min(n, len(src.v))
+            return [(cfg.hset("$src", Const(src.v[take:])).hset("$reads", Const(cfg.heap.get("$reads", Const(0)).v + 1)), Const(src.v[:take]))]
+
+        pol = FlowPolicy(program, may_raise_all=False, cancel=False, summaries={"self.reader.read": eof_read})
+        pol.loop_unroll = 12
+        out = run_flow(program, uid, pol, args={"self": ObjV("self", "ZmqSocket"), "num_bytes": Const(total)}, heap={"$src": Const(_frame(have, 5))})
+        kinds = sorted({("raise " + getattr(c.env.get("$exc"), "cls", "?")) if k == "raise" else f"return {c.env.get('$ret')!r}" for k, c, d in exits(out)})
+        ctx.check(kinds == ["raise EOFError"], "R19.2", uid, f"stream ends after {have} of {total} bytes -> EOFError",
+                  msg=f"read_bytes({total}) when the peer closes after {have} byte(s): {kinds or 'no exit (keeps reading an ended stream)'}, specified ['raise EOFError']",
+                  key=f"read_bytes EOF {total}/{have}", node=program.func(uid), rel="jupyter_kernel.py")
 
     ctx.rule("R19.3", "a wire message is returned only after its signature was compared with the HMAC of its frames; the key state is copied per message", floor=4)
     uid = f"{K}.deserialize_wire_msg"
